@@ -443,11 +443,12 @@ def run(ctx):
     # correspondence
     terms, back = [], []
     for ri, c in enumerate(rows):
-        for i in range(NTX):
+        enum = c["kind"] == "enum"     # enumerated histories only touch T0 / outpoint 0
+        for i in range(1 if enum else NTX):
             t, idx = project_conf(c, i)
             terms.append(t)
             back.append((ri, "conf", i, idx))
-        for j in range(NOP):
+        for j in range(1 if enum else NOP):
             t, idx = project_spend(c, j)
             terms.append(t)
             back.append((ri, "spend", j, idx))
